@@ -324,6 +324,24 @@ def run(ctx):
         if p.errors:
             ctx.fail("conforming-document-reports-error:%s" % p.errors[0][1], "a conforming document (named reference) records a parse error",
                      {"input": text, "errors": repr(p.errors[:3])})
+    # a restart of the parse (late <meta charset> beyond the first chunk) must not leave anything behind in the error
+    # positions: the errors of the bytes parse are those of the str parse of the decoded text
+    for pad_lines in (0, 40, 5200, 5300):
+        for enc in ("utf-8", "koi8-r"):
+            head = b"<!DOCTYPE html><html><head><title>t</title><!--" + b"x\n" * pad_lines + b"-->"
+            body = "<meta charset=%s></head><body><p>\u0416z</b>\n<i></u>\n</p></q>" % enc
+            data = head + body.encode(enc)
+            pb = html5lib.HTMLParser()
+            pb.parse(data)
+            ps = html5lib.HTMLParser()
+            ps.parse(data.decode(enc))
+            ctx.case("restart-positions", "%d|%s" % (pad_lines, enc), nontrivial=True)
+            eb = [(pos, code) for pos, code, _ in pb.errors]
+            es = [(pos, code) for pos, code, _ in ps.errors]
+            if eb != es:
+                ctx.fail("positions-differ-after-restart", "error positions of a bytes parse that restarted on a late <meta> differ from the "
+                         "str parse of the same characters", {"padding_lines": pad_lines, "encoding": enc, "bytes_errors": repr(eb)[:300],
+                                                               "str_errors": repr(es)[:300]})
     # every tokenizer error site: short strings over the tokenizer alphabet, raw and inside a tag / attribute value
     import itertools
     alpha = ["<", ">", "/", "!", "-", "?", "=", '"', "'", "&", "#", ";", "x", "A", "0", " ", "\x00", "]"]
